@@ -176,6 +176,40 @@ func runC11(c *Ctx) {
 			}
 		}
 	}
+	// the cipher's own NewGCM hook called directly (what crypto/cipher calls after validating the sizes): every
+	// (nonceSize, tagSize) it ACCEPTS must be memory safe; sizes outside 12..16 / non-positive nonce sizes must be refused
+	if asmOK {
+		blk, _ := sm4.NewCipher(c.rng.Bytes(16))
+		if ga, ok := blk.(gcmAbleIface); ok {
+			for ts := 0; ts <= 40; ts++ {
+				for _, ns := range []int{12, 0, -1} {
+					if ns != 12 && ts != 16 {
+						continue
+					}
+					a, err := ga.NewGCM(ns, ts)
+					cl := fmt.Sprintf("newgcm/tag%d/nonce%d", bucket(ts), ns)
+					req := fmt.Sprintf("guard NewGCM nonceSize=%d tagSize=%d", ns, ts)
+					valid := ts >= 12 && ts <= 16 && ns > 0
+					if err != nil || a == nil {
+						report(cl, req, "refused", map[bool]string{true: "ok", false: "refused"}[valid])
+						continue
+					}
+					if !valid {
+						// accepted although invalid: then it must at least be memory safe and not silently wrong
+						pt, nonce := gIn.right(20), gNonce.right(12)
+						if ns <= 0 {
+							nonce = nonce[:0]
+						}
+						dst := gDst.right(20 + ts)[:0]
+						got := tryFault(func() { a.Seal(dst, nonce, pt, nil) })
+						report(cl, req, "accepted-invalid-sizes/"+got, "refused")
+					} else {
+						report(cl, req, "ok", "ok")
+					}
+				}
+			}
+		}
+	}
 	// Block methods: exact 16-byte buffers at the guard, and short-buffer misuse
 	for _, accel := range []bool{true, false} {
 		if accel && !asmOK {
